@@ -48,9 +48,10 @@ def dropBlanksTabs : Str → Str
   | [] => []
   | c :: cs => if c = ' ' || c = '\t' then dropBlanksTabs cs else c :: cs
 
-/-- `is_field_continuation`: `^[ \t]+[\S]+.*$` -/
+/-- `is_field_continuation`: `^[ \t]+.*[\S]+.*$` — indented with a space or a tab, and not blank (`\S` of `re` is the
+complement of `str.isspace`: `Tie.reSpace_eq`) -/
 def isCont (l : Str) : Bool :=
-  headP (fun c => c = ' ' || c = '\t') l && headP (fun c => !isSpace c) (dropBlanksTabs l)
+  headP (fun c => c = ' ' || c = '\t') l && !isBlank l
 
 /-- `str.lower()` on one character of a field name -/
 def lowerNameChar (c : Char) : Str :=
